@@ -69,6 +69,9 @@ def population(rng, family, size):
         return [str(uuid.UUID(int=r(128), version=4)) for _ in range(size)]
     if family == "email":
         return ["user%d@example%d.com" % (off + i, i % 7) for i in range(size)]
+    if family == "snowflake-int":
+        base = rng.choice([1_500_000_000_000_000_000, 9_100_000_000_000_000_000, 2 ** 53 + 12345])
+        return [base + i for i in range(size)]
     if family == "mixed-case-token":
         import base64
         return [base64.b64encode((off + i).to_bytes(6, "big")).decode("ascii") for i in range(size)]
@@ -79,7 +82,7 @@ def run(ctx):
     from pyab_experiment.experiment_evaluator import ExperimentEvaluator
     rng = ctx.rng
     size = SIZE[ctx.tier]
-    families = ["sequential", "sequential-str", "zero-padded", "uuid", "email", "multi-field", "mixed-case-token"]
+    families = ["sequential", "sequential-str", "zero-padded", "uuid", "email", "multi-field", "mixed-case-token", "snowflake-int"]
     ctx.extra["rule"] = ("id families (sequential ints, digit strings, zero-padded, UUID-like, e-mail-like, two-field keys) x random offsets x "
                          "salts x weight vectors; every assignment of the real evaluator must equal the published scheme exactly "
                          "(correspondence); chi-square goodness-of-fit and chi-square independence between two salts are evaluated on those "
@@ -93,6 +96,8 @@ def run(ctx):
         ws = choicelib.weight_vector(rng, ["int-small", "decimal", "mixed", "two", "decimal", "equal", "mixed", "int"][k % 8])[:8]
         if k % 8 == 1:
             ws = rng.choice([["0.5", "0.5"], ["0.25", "0.25", "0.5"], ["1.5", "2.5"], ["0.1", "0.2", "0.7"]])
+        if k % 8 == 3:
+            ws = rng.choice([["2", "1", "3"], ["25", "10", "15", "50"], ["1", "0.5", "1.5"], ["3", "1", "5"]])     # first weight = mean
         if sum(gen.weight_fraction(w) for w in ws) == 0:
             ws = ["1", "1"]
         salts = ["salt_%d" % rng.randrange(10 ** 6), "other_%d" % rng.randrange(10 ** 6)]
